@@ -339,7 +339,7 @@ def validate_traces(ver, binp, family, trace_module, wd, stage="trace", jobs=12,
     return summ
 
 
-def validate_runs(ver, binp, family, trace_module, wd, stage="runs", jobs=12, gen_args=None, timeout=900):
+def validate_runs(ver, binp, family, trace_module, wd, stage="runs", jobs=12, gen_args=None, timeout=900, tool_invariants=()):
     """I->S for stateful objects: the harness records one file per run (header + events); each run must be a
     behaviour of the specification (blocking form: the first unexplained event of a run is the mismatch) and
     every invariant of the specification is evaluated in every state of the matched behaviour."""
@@ -365,6 +365,8 @@ def validate_runs(ver, binp, family, trace_module, wd, stage="runs", jobs=12, ge
         text = open(res["out_path"], errors="replace").read()
         inv = re.findall(r"Invariant (\w+) is violated", text)
         for name in inv:
+            if name in tool_invariants:
+                raise ToolError(f"harness defect: {name} violated in {path}")
             mism.append({"fam": family, "name": "run", "run": os.path.basename(path), "invariant": name,
                          "header": json.loads(open(path).readline()), "obs": {"p": "invariant:" + name}})
         if not res["ok"] and not inv:
